@@ -183,6 +183,9 @@ struct PropSpec
     int rec_len = 32;     // choices per record
     int watchdog_s = 20;  // per-case alarm
     std::vector<std::string> essential;  // labels that must be seen at least once in a full run
+    // > 0: the property enumerates a finite space. Case number i is the single record {i} (no randomness, no
+    // shrinking); running indices 0..enum_total-1 covers the space completely.
+    uint64_t enum_total = 0;
 };
 
 // ---------------------------------------------------------------- crash / hang dump
@@ -571,7 +574,7 @@ inline int pbt_main(int argc, char** argv, const std::vector<PropSpec>& specs)
     if (mode == "list")
     {
         for (auto& s : specs)
-            std::cout << s.id << "\n";
+            std::cout << s.id << " " << s.enum_total << "\n";
         return 0;
     }
     if (mode == "merge")
@@ -663,7 +666,9 @@ inline int pbt_main(int argc, char** argv, const std::vector<PropSpec>& specs)
         // each case is a pure function of (seed, property id, i)
         rc::Random rnd(seed * 0x9E3779B97F4A7C15ull ^ fnv1a(spec->id) ^ (i * 0xD1B54A32D192ED03ull));
         int size = maxsize <= 0 ? 0 : static_cast<int>((i * 37 + 11) % static_cast<uint64_t>(maxsize + 1));
-        auto shrinkable = gen(rnd, size);
+        auto shrinkable = spec->enum_total > 0 ? rc::shrinkable::just(Case{Record{i}}) : gen(rnd, size);
+        if (spec->enum_total > 0 && i >= spec->enum_total)
+            break;
         Case c = shrinkable.value();
         std::string res = run_one(*spec, c, ctx);
         ++st.evaluations;
